@@ -379,12 +379,19 @@ func exportedAPI(repo string) ([]string, error) {
 type c10Batch struct {
 	Index int `json:"index"`
 	Calls int `json:"calls"`
+	// RaiseProcs: the processor count is raised above its value at package initialisation before the calls
+	RaiseProcs bool `json:"raise_gomaxprocs"`
 }
 
 // the child: executes one batch, logging each call before issuing it
 func c10RunBatch(c *Ctx, b c10Batch) {
 	r := c.R
 	rng := c.RNG.Fork(uint64(1000 + b.Index))
+	if b.RaiseProcs {
+		n := runtime.GOMAXPROCS(0)
+		runtime.GOMAXPROCS(4*n + 3)
+		r.Count("batches_with_gomaxprocs_raised_after_init", 1)
+	}
 	ds := drivers()
 	logPath := filepath.Join(c.Env["VERIF_SCRATCH"], fmt.Sprintf("c10-batch-%d-%s.log", b.Index, c.Env["VERIF_C10_FLAVOUR"]))
 	lf, _ := os.Create(logPath)
@@ -543,7 +550,7 @@ func init() {
 				}
 				results := make([]out, nb)
 				monParallel(nb, c.N(4, 8), func(i int) {
-					b := c10Batch{Index: i, Calls: calls}
+					b := c10Batch{Index: i, Calls: calls, RaiseProcs: i%2 == 1}
 					results[i] = out{runChildPart(c, f.env, "batch", b, 20*time.Minute, "VERIF_C10_FLAVOUR="+f.name), b}
 				})
 				for _, o := range results {
